@@ -4,6 +4,8 @@
 #include "util/ObjectPool.h"
 #include "util/Queue.h"
 #include "system/Mutex.h"
+#include "util/ByteBuffer.h"
+#include "regex/PathMatcher.h"
 #include "c18.h"
 
 namespace vs { namespace c10 {
@@ -67,7 +69,7 @@ inline Plan Gen(uint64_t seed)
             case 4: case 5: s += " C" + I(k); break;
             case 6: case 7: s += " T" + I(k); break;
             case 8: s += " W" + I(k); break;
-            case 9: s += wl.oneIn(2) ? " X" : " U"; break;
+            case 9: s += wl.oneIn(2) ? " X" : (wl.oneIn(4) ? (wl.oneIn(2) ? " G" : " R") : " U"); break;
             case 10: s += wl.oneIn(3) ? " D" : " P"; break;
             case 13: s += " Z" + I(k); break;   // obtain an object from one pool and one from the other, let the first hold the second, drop the first: its release nests a release into the other pool
             case 12: {const uint32_t q = wl.below(3); s += (q == 0) ? (" L" + I(k)) : ((q == 1) ? (" Q" + I(k)) : (" B" + I(k)));} break;   // L/Q: the local object takes a reference to slot k's object (directly / into its Queue); B: obtain from the SECOND pool into slot k
@@ -82,6 +84,14 @@ inline Plan Gen(uint64_t seed)
 
 // The pool's private count of spare objects (_curPoolSize, "tracks the current number of available objects") is part of the bookkeeping the property names; it is
 // read without touching /repo through the one standard loophole: access checks do not apply to the arguments of an explicit template instantiation.
+class FailingStrategy : public IMemoryAllocationStrategy
+{
+public:
+   virtual void * Malloc(size_t) {return NULL;}
+   virtual void * Realloc(void *, size_t, size_t, bool) {return NULL;}
+   virtual void Free(void *, size_t) {}
+};
+static FailingStrategy g_failingStrategy; static bool g_usedPathMatcher = false;
 template<class Tag, typename Tag::type M> struct PrivAccess {friend typename Tag::type PrivGet(Tag) {return M;}};
 struct CurPoolSizeTag160 {typedef uint32 ObjectPool<Obj, 160>::*type; friend type PrivGet(CurPoolSizeTag160);};
 struct CurPoolSizeTag320 {typedef uint32 ObjectPool<Obj, 320>::*type; friend type PrivGet(CurPoolSizeTag320);};
@@ -166,6 +176,25 @@ template<int SLAB> struct Runner
                      }
                      break;
                      case 'S': {DECLARE_MUTEXGUARD(slotLock); ObjRef & r = slots[k]; const ObjRef & alias = r; r = alias; if ((r())&&((r()->canary != 0xC0FFEE)||(!r()->inUse))) thr::ReportAndExit("released_by_self_assignment", "assigning a Ref to itself released the object it holds");} break;   // self-assignment of a (possibly sole) reference
+                     case 'G':
+                     {
+                        // library pool, failure path: a holder gives a pooled ByteBuffer an allocation strategy of its own whose Malloc() fails, and drops it;
+                        // whoever obtains that object next must find it as a freshly constructed one (no strategy, the requested size)
+                        {ByteBufferRef b = GetByteBufferFromPool(0); if (b()) {b()->SetMemoryAllocationStrategy(&g_failingStrategy); (void) b()->SetNumBytes(64, false);}}
+                        ByteBufferRef c = GetByteBufferFromPool(16);
+                        if (c() == NULL) thr::ReportAndExit("pooled_object_not_fresh", "GetByteBufferFromPool(16) failed although memory is plentiful (the object handed out still uses a previous holder's failing allocation strategy?)");
+                        if ((c()->GetMemoryAllocationStrategy() != NULL)||(c()->GetNumBytes() != 16)) thr::ReportAndExit("pooled_object_not_fresh", "a ByteBuffer obtained from the pool has " + std::string(c()->GetMemoryAllocationStrategy() ? "a previous holder's allocation strategy" : "no allocation strategy") + " and " + U(c()->GetNumBytes()) + " bytes (a fresh one: none, 16)");
+                        res.stats.inc("p.bytebuffer_with_failing_strategy_recycled");
+                     }
+                     break;
+                     case 'R':
+                     {
+                        // library pools, failure path: a path whose second clause is not a valid pattern -- PutPathString() backs out half-way and must hand back the pooled
+                        // objects it had obtained by then (checked at the end of the run: the library's pools hold no slot in use)
+                        {PathMatcher pm; if (pm.PutPathString("x*/[b/q?", ConstQueryFilterRef()).IsOK()) res.stats.inc("p.malformed_path_accepted"); else res.stats.inc("p.malformed_path_refused");}
+                        g_usedPathMatcher = true;
+                     }
+                     break;
                      case 'A': {Obj * raw = local(); local.SetRef(raw); if ((local())&&((local()->canary != 0xC0FFEE)||(!local()->inUse))) thr::ReportAndExit("released_by_self_assignment", "SetRef() with the pointer the Ref already holds released the object");} break;
                      case 'K':
                      {
@@ -207,6 +236,12 @@ template<int SLAB> struct Runner
          // every obtained object has been returned exactly once; every heap object deleted exactly once
          if (g_cnt.recycled != g_cnt.obtained) thr::ReportAndExit((g_cnt.recycled < g_cnt.obtained) ? "pooled_object_leaked" : "pooled_object_released_twice", U((uint64_t) g_cnt.obtained) + " objects obtained from the pool, " + U((uint64_t) g_cnt.recycled) + " returned to it, after every reference was dropped");
          if (g_cnt.heapDeleted != g_cnt.heapAllocated) thr::ReportAndExit("heap_object_leaked", U((uint64_t) g_cnt.heapAllocated) + " heap objects allocated, " + U((uint64_t) g_cnt.heapDeleted) + " deleted, after every reference was dropped");
+         if (g_usedPathMatcher)
+         {
+            GetStringMatcherQueuePool()->Drain(); GetStringMatcherPool()->Drain();
+            const uint32 q = GetStringMatcherQueuePool()->GetNumAllocatedItemSlots(), m = GetStringMatcherPool()->GetNumAllocatedItemSlots();
+            if ((q != 0)||(m != 0)) thr::ReportAndExit("pooled_object_leaked", "every PathMatcher is gone and the library's pools were drained, yet " + U(q) + " StringMatcherQueue and " + U(m) + " StringMatcher slots remain allocated: objects obtained by a PutPathString() that failed half-way were never handed back");
+         }
          // pool bookkeeping: with nothing handed out, every allocated slot is a spare one, and the pool's own count of spare objects must say so
          if (SpareCountOf(pool)  != pool.GetNumAllocatedItemSlots())  thr::ReportAndExit("pool_spare_count_inconsistent", "every reference was dropped: the pool has " + U(pool.GetNumAllocatedItemSlots()) + " item slots allocated, none handed out, but counts " + U(SpareCountOf(pool)) + " spare objects");
          if (SpareCountOf(pool2) != pool2.GetNumAllocatedItemSlots()) thr::ReportAndExit("pool_spare_count_inconsistent", "every reference was dropped: the second pool has " + U(pool2.GetNumAllocatedItemSlots()) + " item slots allocated, none handed out, but counts " + U(SpareCountOf(pool2)) + " spare objects");
